@@ -156,9 +156,9 @@ def run(chk, tier, seed):
     by_kind = {}
     for c in hostile:
         by_kind.setdefault(c["kind"], []).append(c)
-    nh = 260 if quick else 3000
+    nh = 260 if quick else 2000
     hsel = by_kind["hxc"][:nh] + by_kind["hfe"][:nh] + by_kind["dump"][:nh] + by_kind["mmb"]
-    csel = clis[: (700 if quick else 12000)]
+    csel = clis[: (700 if quick else 8000)]
     # every command at least once after exactly one good --file (and with --verbose in front), whatever the sample holds
     have = {(tuple(c["opts"]), c["cmd"]) for c in csel}
     for c in clis:
@@ -215,7 +215,7 @@ def run(chk, tier, seed):
             c["all_cmds"] = True
         rest = [c for c in tcs if not c["accept"] and not c.get("all_cmds")]
         rnd.shuffle(rest)
-        tsel = acc + near + rest[: (100 if quick else 8000)]
+        tsel = acc + near + rest[: (100 if quick else 4000)]
         base_img = mkdisc.surface_dfs(12, 8, title=b"TC", total=12, entries=[mkdisc.entry("B", length=200, start=6), mkdisc.entry("A", length=700, start=3)])
         fcmds = [["cat"], ["type", "A"], ["dump", "A"], ["extract-files", "{DEST}"], ["sector-map"], ["dump-sector", "0", "1", "0"],
                  ["dump-sector", "0", "1", "1"], ["dump-sector", "0", "1", "2"], ["dump-sector", "0", "1", "3"], ["extract-unused", "{DEST}"]]
@@ -347,7 +347,7 @@ def run(chk, tier, seed):
         corpus.append(mkdisc.write(os.path.join(scratch, "v.mmb"), mkdisc.container_mmb({0: bytes(mkdisc.surface_dfs(800, 7, title=b"S0"))})))
         import gzip as gz
         corpus.append(mkdisc.write(os.path.join(scratch, "vz.ssd.gz"), gz.compress(bytes(okimg.img))))
-        nhav = 250 if quick else 5000
+        nhav = 250 if quick else 3000
 
         def do_v(i):
             rr = random.Random(seed * 31 + i)
